@@ -859,12 +859,20 @@ fn generate_function_inner(
 
     let name = Located::none(context.get_function_name(id)?.to_string());
 
+    // Default values can not be declared when parameters for globals follow them
+    // Calls to these functions pass the default values explicitly instead
+    let has_parameters_for_globals = !context
+        .function_required_globals
+        .get(&id)
+        .unwrap()
+        .is_empty();
+
     let mut params = Vec::new();
     for param in &decl.params {
         params.push(generate_function_param(
             param,
             false,
-            trampoline_target,
+            trampoline_target || has_parameters_for_globals,
             context,
         )?);
     }
@@ -2559,6 +2567,31 @@ fn generate_user_call(
 
     let type_args = generate_template_type_args(tys, context)?;
     let mut args = generate_invocation_args(arguments, context)?;
+
+    // Functions that receive parameters for globals do not declare default values
+    // Pass the default value of each parameter the call does not provide
+    if !context
+        .function_required_globals
+        .get(&id)
+        .unwrap()
+        .is_empty()
+    {
+        let decl = context
+            .module
+            .function_registry
+            .get_function_implementation(id)
+            .as_ref();
+        if let Some(decl) = decl {
+            for param in decl.params.iter().skip(arguments.len()) {
+                match &param.default_expr {
+                    Some(default_expr) => {
+                        args.push(Located::none(generate_expression(default_expr, context)?))
+                    }
+                    None => return Err(GenerateError::InvalidModule),
+                }
+            }
+        }
+    }
 
     // Add arguments for passing global variable references into subfunctions
     append_arguments_for_globals(&mut args, id, context);
